@@ -31,10 +31,10 @@ SaNonce(v)  == FillT("seeded", 16 * v + 8, 40 + v)
 SaSecret(v) == FillT("seeded", 256, 50 + v)
 SaSpi(v)    == << D(8, v), D(8, 10 + v) >>
 Px(v) == "L" \o ToString(v)
-\* number of steps before history position i (loads are one step, uses five)
+\* number of steps before history position i (loads are one step, uses six)
 RECURSIVE StepsBefore(_)
-StepsBefore(i) == IF i <= 1 THEN 0 ELSE StepsBefore(i - 1) + (IF ops[i - 1].op = "load" THEN 1 ELSE 5)
-StepNo(i) == StepsBefore(i) + 1          \* index of the first step of position i: sa_probe; +3 is the protect step
+StepsBefore(i) == IF i <= 1 THEN 0 ELSE StepsBefore(i - 1) + (IF ops[i - 1].op = "load" THEN 1 ELSE 6)
+StepNo(i) == StepsBefore(i) + 1          \* index of the first step of position i: sa_probe; +4 is the protect step
 \* position-dependent names so that two uses of the same value in one history do not clash
 SaSteps(o, i) ==
   IF o.op = "load"
@@ -48,10 +48,12 @@ SaSteps(o, i) ==
          << Step("sa_probe", PropId, FALSE, [sa |-> "K"] @@ ProbeArgsP(Px(o.v), Su),
                  [panic |-> FALSE, p_prf_d |-> x.p_prf_d, p_integ_i |-> x.p_integ_i, p_integ_r |-> x.p_integ_r, p_prf_i |-> x.p_prf_i, p_prf_r |-> x.p_prf_r,
                   p_ct_i |-> x.p_ct_i, p_ct_r |-> x.p_ct_r]),
-            ChildStep(PropId, "K", "C" \o ToString(i), Su.prf, k.sk_d, FillT("seeded", 24 + i, 9 + i), 256, "sha1"),
+            \* two Child SAs from nonces of the same length and other contents (the caller reuses its nonce buffer)
+            ChildStep(PropId, "K", "C" \o ToString(i), Su.prf, k.sk_d, FillT("seeded", 32, 9 + i), 256, "sha1"),
+            ChildStep(PropId, "K", "D" \o ToString(i), Su.prf, k.sk_d, FillT("seeded", 32, 90 + i), 256, "sha1"),
             SaNew(pn, Su, k),
             ProtectStep(PropId, "K", (i % 2 = 0), m, "system"),
-            UnprotectStep(PropId, pn, ~(i % 2 = 0), Ref(StepNo(i) + 3, "wire"), "nil", AcceptExp(m)) >>
+            UnprotectStep(PropId, pn, ~(i % 2 = 0), Ref(StepNo(i) + 4, "wire"), "nil", AcceptExp(m)) >>
 
 RECURSIVE AllSteps(_)
 AllSteps(i) == IF i > Len(ops) THEN << >>
